@@ -51,6 +51,11 @@ TEXT = {
   level_text="Generated addresses and database behaviours against the location helpers with an independent class oracle (incl. zero database calls for non-global addresses); generated traffic histories against the real Prometheus collector checking that no series carries the client IP/port in any textual form, that one client has one location label, and that the exposition is invariant under replacing the client by another address of the same class.",
   level_note="Leak detection is textual over names and label values; values are covered by the metamorphic relation.",
  ),
+ "C17": dict(
+  technique="model-based property testing (rapid) against an interval ledger under a fake clock, plus generated concurrent workloads under the real clock with interval-arithmetic bounds",
+  level_text="Generated open/auth/close/add/remove/advance/scrape histories drive the real Prometheus collector under a synctest fake clock and every scrape is compared with a ledger of per-(IP,key) open intervals; because a fake clock cannot move between two statements, generated concurrent workloads (workers x scrapers x client pools x database latency) additionally run under the real clock, where the process must survive, counters must be monotone and the final totals must lie inside bounds derived from the workers' own timestamps.",
+  level_note="Concurrent schedules are sampled; the fake-time engine uses Go 1.26 timer semantics.",
+ ),
 }
 def _na():
     from checks_table import CHECKS
